@@ -587,6 +587,9 @@ func (e *nestEnv) opNotifyFail() {
 		// into a separate slab that does not fit its slot has nothing to tell its parent).  What C10 says about
 		// the served mutation presupposes ancestors that were valid before it: repaired histories go on (and
 		// are held to everything from here on), the others are counted and end.
+		if len(e.st.Violations) == nv && e.rng.Intn(2) == 0 {
+			e.opCommitReload() // (repaired also means: what a commit persists is what the handles show)
+		}
 		if len(e.st.Violations) == nv {
 			e.st.Hit("notify-fail:healed:level=higher")
 			return
